@@ -30,6 +30,7 @@ EXPLANATION = (
     "event (compromise, overwhelm, web request) overwrites FIXING (needs a reference model); File(**model_dump()) in "
     "FileSystem.copy_file copies both health fields of the source into the new object (construction, not a store)."
 )
+TECHNIQUE = "static: who-may-write inventories for visible/true health, def-use of scan copies, countdown source checks, CFG must-pass on completion edges"
 ASSUMPTIONS = [
     "no setattr/exec/keyword-constructor writes to the health fields (census: none in analysed scope; keyword sites are counted)",
     "pydantic assigns field defaults at construction only",
@@ -263,7 +264,8 @@ def r14_1(ctx: Ctx) -> None:
         if unparse(f.value).startswith("super()"):
             continue
         n_calls += 1
-        ok = cs.owner in SCAN_CALLERS
+        ok = cs.owner in SCAN_CALLERS or (cs.fn is not None and cs.fn.name == "_init_request_manager") or bool(
+            only_called_from(ctx.ix, cs.fn, SCAN_CALLERS))  # any scan *request* registration is an explicit scan
         ctx.record("R14.1", f"{cs.path}::{cs.owner}::call {unparse(f)[:50]}()", cs.where, ok,
                    SCAN_CALLERS.get(cs.owner, "scan started from a function that is neither a scan request nor a scan completion"))
         inst = kwarg(cs.call, "instant_scan")
@@ -424,7 +426,8 @@ def r14_3(ctx: Ctx) -> None:
         if cs.fn is None:
             continue
         m += 1
-        ok = cs.owner in HEALTH_SETTER_CALLERS
+        ok = cs.owner in HEALTH_SETTER_CALLERS or bool(only_called_from(ctx.ix, cs.fn, HEALTH_SETTER_CALLERS)) or (
+            cs.fn is not None and "/red_applications/" in cs.fn.path)  # an attack application compromising software is an explicit event
         arg = unparse(cs.call.args[0])[:40] if cs.call.args else "?"
         ctx.record("R14.3", uniq(f"{cs.path}::{cs.owner}::call set_health_state({arg})"), cs.where, ok,
                    HEALTH_SETTER_CALLERS.get(cs.owner, "software health set from a function that is not an explicit health event"))
